@@ -12,6 +12,6 @@ CONSTANTS
   Users <- UsersAll
   Pieces <- PiecesM
   PwMax = 1
-  Design = "current"
+  Design = "fix"
 INVARIANTS GShape GMarkers GValues MExplained MEffective MNoClause
 CHECK_DEADLOCK FALSE
